@@ -24,6 +24,13 @@ func hasLength(v reflect.Value) bool {
 
 func sliceFromArray(arrValue reflect.Value) reflect.Value {
 	arrType := arrValue.Type()
+	if !arrValue.CanAddr() {
+		// reflect.Copy reads a non-addressable array of a pointer-shaped type ([1]*T, [1]map[K]V, ...)
+		// through the element pointer itself, so copy such a value into an addressable array first.
+		addressableArr := reflect.New(arrType).Elem()
+		addressableArr.Set(arrValue)
+		arrValue = addressableArr
+	}
 	sliceType := reflect.SliceOf(arrType.Elem())
 	sliceValue := reflect.MakeSlice(sliceType, arrType.Len(), arrType.Len())
 	reflect.Copy(sliceValue, arrValue)
